@@ -149,6 +149,11 @@ def run(prog, rep):
                           f'on which the value is not {what_}: such entries (for instance pool references, which carry no details of their own) '
                           f'keep the delegation id of the aggregate model instead of the id of the model, and unmerge cannot find them')
 
+    # ... and the write-back flag of rewrite_delegations covers both delegation properties of a node (shared with C13)
+    check_flag_scope(rep, 'R2', adm_cls.module, 'ABCADMPropertyGraph.rewrite_delegations', rw0,
+                     'a node whose label delegations were re-keyed but whose capacity delegations were not (or the other way round) is never '
+                     'written back: it keeps the delegation id of the aggregate model, get_delegations finds nothing under the model id and '
+                     'unmerge leaves the delegation behind')
     # the contributor list that is extended is the one just read from the merged node, and that one is written back
     mloops = [l for l in walk_no_nested(ma) if isinstance(l, ast.For) and any(isinstance(c, ast.Call) and call_name(c) == 'merge_nodes' for c in ast.walk(l))]
     if mloops:
@@ -257,6 +262,18 @@ def run(prog, rep):
             rep.violation('R4', loc(acb.module, dl[0]), 'ABCCBMPropertyGraph.rollback', 'combined model deleted before the snapshot is known to exist',
                           'rollback deletes the combined model first and only then looks at the snapshot: with a snapshot id that is not (or no '
                           'longer - a snapshot is consumed by the rollback to it) in the store the re-homing fails and no combined model is left at all')
+    # ... and every rollback that returns normally has put the snapshot in place (also when the combined model had been emptied)
+    if rh:
+        rcfg4 = CFG(rb)
+        rhn = flow.node_of(rcfg4, rh[0])
+        if rhn is None:
+            raise AnalysisError('rollback: re-homing statement not found in the flow graph')
+        skipped = rcfg4.paths_avoiding(rcfg4.entry, rcfg4.exit, {rhn.id})
+        rep.instance('R4', f'rollback: the snapshot takes over the model id on every path that returns normally: {not skipped}')
+        if skipped:
+            rep.violation('R4', loc(acb.module, rh[0]), 'ABCCBMPropertyGraph.rollback', 're-homing of the snapshot can be skipped',
+                          'rollback can return without having given the snapshot the id of the combined model (for instance when the combined '
+                          'model is empty at that moment): nothing is restored and the snapshot is left behind under its own id')
     if rh:
         pv = kwarg(rh[0], 'prop_val')
         pn = kwarg(rh[0], 'prop_name')
